@@ -219,6 +219,7 @@ func (h *Hist) Submit(c *Call, monitors []Monitor) *TxnObs {
 	}
 	rec.Outcome = o.Outcome
 	h.Log = append(h.Log, rec)
+	fmt.Printf("RES %s %d %s %s\n", h.ID, rec.Idx, rec.Outcome, trunc(rec.Output, 400))
 	for _, m := range monitors {
 		m.Fn(h, o)
 	}
@@ -329,6 +330,14 @@ func (h *Hist) NodeByKey(s snap.Snapshot, key string) *Node {
 // interfaces are followed. Returns the zero Value when the path does not exist.
 func F(v interface{}, path string) reflect.Value {
 	rv := reflect.ValueOf(v)
+	// version-wrapped entities (entitywrapper.Wrapper): look at the wrapped entity
+	if rv.IsValid() && rv.Kind() == reflect.Ptr && !rv.IsNil() {
+		if m := rv.MethodByName("Entity"); m.IsValid() && m.Type().NumIn() == 0 && m.Type().NumOut() == 1 {
+			if e := m.Call(nil)[0]; e.IsValid() && !(e.Kind() == reflect.Interface && e.IsNil()) {
+				rv = e
+			}
+		}
+	}
 	for _, part := range strings.Split(path, ".") {
 		for rv.IsValid() && (rv.Kind() == reflect.Ptr || rv.Kind() == reflect.Interface) {
 			if rv.IsNil() {
